@@ -61,7 +61,7 @@ def keep_c12(c, quick):
         return c["w"] in C12_W32 and (not quick or c["n"] == 9)
     if c["fn"] == "page_delta":
         return True
-    if c["fn"] in ("make_definitions", "read_plain_t", "ba_roundtrip", "dict_roundtrip", "codec_threads"):
+    if c["fn"] in ("make_definitions", "make_definitions_big", "read_plain_t", "ba_roundtrip", "dict_roundtrip", "codec_threads"):
         return False
     if c["fn"] == "delta_unpack" and m.get("pattern") == "stale":
         return True
@@ -1072,6 +1072,19 @@ def gen_plain(rng, quick):
                     cases.append({"fn": "make_definitions", "vals": [None if z else float(i) for i, z in enumerate(nulls)],
                                   "no_nulls": no_nulls, "version": version, "stream": "main",
                                   "meta": {"n": n, "nulls": npat}})
+    # pages WITH nulls at the varint boundaries of the run header's GROUP count (the header counts the bytes of the packed mask:
+    # 63 / 64 groups = 1 -> 2 header bytes around 504 rows, 8191 / 8192 groups = 2 -> 3 header bytes around 65528 rows): whatever buffer
+    # the block is assembled in must hold the longer header; and the no-null run at the same row counts
+    for n in ([495, 496, 503, 504, 505, 511, 512, 513, 65519, 65520, 65521, 65527, 65528, 65529, 65535, 65536, 65537] if quick else
+              list(range(495, 515)) + list(range(65512, 65546)) + [131071, 131072]):
+        for version in (1, 2):
+            for npat in (("last", "third") if (quick and n in (504, 65528, 65529)) or not quick else ("last",)):
+                nulls = {"last": [i == n - 1 for i in range(n)], "third": [i % 3 == 1 for i in range(n)]}[npat]
+                cases.append({"fn": "make_definitions", "vals": [None if z else 1 for z in nulls], "no_nulls": False, "version": version,
+                              "stream": "main", "meta": {"n": n, "nulls": npat, "boundary": True}})
+            if n in (504, 65528, 65529, 65536):
+                cases.append({"fn": "make_definitions", "vals": [1] * n, "no_nulls": True, "version": version, "stream": "main",
+                              "meta": {"n": n, "nulls": "none", "boundary": True}})
     for dt, isz in (("int8", 1), ("int16", 2), ("int32", 4)):
         for n in (list(range(0, 41)) + [64, 65, 1000, 1025] if quick else list(range(0, 70)) + [127, 128, 129, 1000, 1023, 1024, 1025]):
             vs = [rng.randrange(1 << (8 * isz - 1)) for _ in range(n)]
@@ -1865,3 +1878,30 @@ def _ct_oracle(c, r, so, guard):
 FNS["codec_threads"] = dict(model=lambda c: ("uleb_enc", 0), tagged=False, views=_info_views("none"), spec=lambda c: ("uleb_enc", 0),
                             oracle=_ct_oracle, safe=lambda c: True, cls=lambda c: {}, trivial=lambda c: False)
 EXTRA_GENERATORS.append(gen_codec_threads)
+
+
+# =============================================================================================
+# make_definitions on pages of millions of rows (thorough tier): the 3 -> 4 byte boundary of the run header (2^20 groups)
+# =============================================================================================
+
+def gen_md_big(rng, quick):
+    if quick:
+        return []
+    cases = []
+    for n in (8388591, 8388592, 8388599, 8388600, 8388601, 8388608):
+        for version in (1, 2):
+            cases.append({"fn": "make_definitions_big", "n": n, "version": version, "null_at": [0, n // 2, n - 1], "stream": "main", "meta": {}})
+    return cases
+
+
+def _mdb_oracle(c, r, so, guard):
+    if r[0] != "ok":
+        return [(r[0], "make_definitions on %d rows: %r" % (c["n"], r[:3]))]
+    if r[1]:
+        return [("values", "make_definitions(%d rows with nulls, page v%d): %s (block of %d bytes starting %s)" % (c["n"], c["version"], "; ".join(r[1]), r[2], r[3]))]
+    return []
+
+
+FNS["make_definitions_big"] = dict(model=lambda c: ("uleb_enc", 0), tagged=False, views=_info_views("none"), spec=lambda c: ("uleb_enc", 0),
+                                   oracle=_mdb_oracle, safe=lambda c: True, cls=lambda c: {"version": c["version"]}, trivial=lambda c: False)
+EXTRA_GENERATORS.append(gen_md_big)
